@@ -568,6 +568,14 @@ def _structure_union(data: Any, union_type: type) -> Any:
     # - Types with registered hooks (datetime, date, bytes, etc.)
     # - Generic types (List[T], Dict[K,V], etc.)
     # - Plain types (str, int, etc.)
+    # A JSON scalar conforms to the primitive variant of its own JSON type (an integer also to float when int is not
+    # a variant): it must then not be coerced into another primitive listed earlier ("007" -> 7, 2.5 -> 2, 404 -> "404")
+    primitives = (bool, int, float, str)
+    json_types = (int, float) if type(data) is int else (type(data),)
+    exact = next((t for t in json_types if t in primitives and t in other_variants), None)
+    if exact is not None:
+        other_variants = [v for v in other_variants if v is exact or v not in primitives]
+
     other_errors: list[tuple[str, str]] = []
     for variant in other_variants:
         try:
